@@ -32,9 +32,9 @@ func init() {
 	}
 }
 
-var c12Trans = []string{"lowercase", "uppercase", "urlDecode", "trim", "removeWhitespace", "compressWhitespace", "hexEncode", "base64Encode", "length", "removeNulls", "sha1", "htmlEntityDecode", "removeComments", "hexDecode", "hexDecode", "base64Decode"}
+var c12Trans = []string{"trimLeft", "trimRight", "lowercase", "uppercase", "urlDecode", "trim", "removeWhitespace", "compressWhitespace", "hexEncode", "base64Encode", "length", "removeNulls", "sha1", "htmlEntityDecode", "removeComments", "hexDecode", "hexDecode", "base64Decode"}
 
-var c12Static = []string{"ARGS_GET", "ARGS_GET:a", "ARGS_GET:b", "ARGS_GET:/^a/", "ARGS_GET:/./", "ARGS_GET|!ARGS_GET:x", "ARGS_GET|!ARGS_GET:a", "ARGS", "ARGS:a", "ARGS|!ARGS:x",
+var c12Static = []string{"ARGS_GET", "ARGS_GET:a", "ARGS_GET:b", "ARGS_GET:/^a/", "ARGS_GET:/./", "ARGS_GET|!ARGS_GET:x", "ARGS_GET|!ARGS_GET:a", "ARGS_GET|!ARGS_GET:a", "ARGS", "ARGS:a", "ARGS|!ARGS:x", "ARGS|!ARGS:a", "ARGS_GET|!ARGS_GET:A",
 	"ARGS_NAMES", "ARGS_GET_NAMES", "ARGS_POST", "ARGS_POST:a", "ARGS_POST|!ARGS_POST:x", "REQUEST_HEADERS", "REQUEST_HEADERS:x-a", "REQUEST_HEADERS|!REQUEST_HEADERS:host",
 	"REQUEST_COOKIES", "REQUEST_COOKIES:a", "REQUEST_COOKIES_NAMES", "REQUEST_URI", "QUERY_STRING", "ARGS_GET:x", "ARGS_GET|!ARGS_GET:/^x/"}
 var c12Dynamic = []string{"MATCHED_VAR", "MATCHED_VARS", "MATCHED_VAR_NAME", "MATCHED_VARS_NAMES", "RULE:id", "&ARGS_GET", "&ARGS", "TX:/^\\d$/", "MATCHED_VARS:/a/"}
@@ -102,9 +102,44 @@ func c12Gen(t *verifrt.Tape) *c12Scenario {
 			family = append(family, pick(t, c12Trans))
 		}
 	}
-	allowDyn := t.Draw(3) == 0
+	// chain mode: values that are successive transformation results of each
+	// other under one repeated name, and a family made of exactly those steps
+	type chainT struct {
+		vals  []string
+		trans []string
+	}
+	chains := []chainT{
+		// note: the query parser already decodes one level
+		{[]string{"%25252525253Cs", "%252525253Cs", "%2525253Cs", "%25253Cs", "%253Cs", "%3Cs"}, []string{"urlDecode", "urlDecode", "lowercase"}},
+		{[]string{"%2525252541b", "%25252541b", "%252541b", "%2541b", "%41b", "Ab"}, []string{"urlDecode", "lowercase", "urlDecode"}},
+		{[]string{"  Ab ", " Ab ", "Ab ", "Ab", "ab"}, []string{"trimLeft", "trimRight", "lowercase"}},
+		{[]string{"3334333133343334", "34313434", "4144", "AD"}, []string{"hexDecode", "hexDecode", "lowercase"}},
+	}
+	var chain *chainT
+	if t.Draw(3) == 0 {
+		chain = &chains[t.Draw(len(chains))]
+		family = append([]string(nil), chain.trans[:2+t.Draw(2)]...)
+	}
+	allowDyn := chain == nil && t.Draw(3) == 0
 	n := 2 + t.Draw(5)
+	if chain != nil && n < 3 {
+		n = 3
+	}
+	// shift mode (half of the chain-mode runs): every rule looks at one base
+	// target or at the same target minus the name that sorts first, so that the
+	// values of the repeated name move by exactly one position between rules
+	shift := chain != nil && t.Draw(2) == 0
+	base := pick(t, []string{"ARGS_GET", "ARGS", "ARGS_GET"})
 	for i := 0; i < n; i++ {
+		if shift {
+			r := c12Rule{ID: 201 + i, Targets: base}
+			if t.Draw(2) == 0 {
+				r.Targets = base + "|!" + base + ":a"
+			}
+			r.Trans = append(r.Trans, family[:1+t.Draw(len(family))]...)
+			sc.Rules = append(sc.Rules, r)
+			continue
+		}
 		r := c12GenRule(t, family, 201+i, 0, allowDyn)
 		if sc.Phase == 2 && t.Draw(4) == 0 {
 			r.Phase = 1 // the cache must not carry anything from phase 1 into phase 2
@@ -115,11 +150,17 @@ func c12Gen(t *verifrt.Tape) *c12Scenario {
 		sc.Rules = append(sc.Rules, r)
 	}
 	names := []string{"a", "a", "a", "b", "x", "A", "ab"}
+	if chain != nil {
+		names = []string{"a", "b", "b", "b"}
+	}
 	vals := []string{"Ab", "aB", "AB", "ab", "Q%41", " x ", "a+B", "Ab", "<!--c-->Z", "&amp;", "4142", "4a4B", "QUI=",
 		// chains x -> T(x) -> T(T(x)) present side by side
 		"%252541b", "%2541b", "%41b", "Ab", "ab", "  ab ", " ab", "343134", "3431", "41",
 		// equal-length pairs that collide under weak fingerprints (byte sum, FNV-1a 32)
 		"ba", "XmBSkAwk", "dnMDOHDF", "bc", "ad"}
+	if chain != nil {
+		vals = chain.vals
+	}
 	q := func() string {
 		var ps []string
 		for i, n := 0, 1+t.Draw(6); i < n; i++ {
@@ -128,6 +169,15 @@ func c12Gen(t *verifrt.Tape) *c12Scenario {
 		return strings.Join(ps, "&")
 	}
 	sc.URI = "/p?" + q()
+	if shift {
+		// one value under the first name, then consecutive chain elements under the repeated name
+		ps := []string{"a=" + pick(t, vals)}
+		start := t.Draw(len(vals))
+		for i, n := 0, 2+t.Draw(3); i < n && start+i < len(vals); i++ {
+			ps = append(ps, "b="+vals[start+i])
+		}
+		sc.URI = "/p?" + strings.Join(ps, "&")
+	}
 	sc.Headers = []Header{{"Host", "h"}}
 	for i, n := 0, t.Draw(3); i < n; i++ {
 		sc.Headers = append(sc.Headers, Header{pick(t, []string{"X-A", "x-a", "X-B"}), pick(t, vals)})
